@@ -96,7 +96,8 @@ CHECKS = {
         category="fault_enumeration",
         text=("Every truncation offset and every extension 1..16 of npy files over versions/itemsizes/shapes, and up to 3 token/"
               "shape edits of text files, enumerated from the NpyFile/TextFile damage models (TLC checks the model reader rejects "
-              "them all) and applied to Array::read_npy, the spectrum reader and view/fold/stat."),
+              "them all) and applied to Array::read_npy, the spectrum reader and view/fold/stat; trailing junk of ten content classes; "
+              "TextGrammar.tla: the accepted language of the text reader character by character (7056 spelled files)."),
         design_ref="DESIGN.md section 3 (C16)",
         note=("Exhaustive per base file; base files are a bounded catalogue. Trusted: TLC, harness damage application."),
         technique="TLA+ reader/damage model, TLC-checked rejection of every fault position, exhaustive fault application to the implementation",
